@@ -53,6 +53,34 @@ def _render_with_sync(spec, sync_lines, res_text=None) -> str:
     return S.render_sections(secs)
 
 
+_TIMEDELTA_MAX_S = 86400 * 999999999
+
+
+def _beyond_timedelta_range(res, sync_lines) -> bool:
+    """True iff the tempo lines, read in FILE order, put some tempo line that follows its predecessor in
+    tick order at a time no timedelta can hold (exact rational arithmetic)."""
+    from fractions import Fraction
+    elapsed = Fraction(0)
+    prev = None
+    for ln in sync_lines:
+        parts = ln.split()
+        if len(parts) != 4 or parts[1] != "=" or parts[2] != "B":
+            continue
+        try:
+            tick, n = int(parts[0]), int(parts[3])
+        except ValueError:
+            continue
+        if prev is not None:
+            pt, pn = prev
+            if tick <= pt or pn <= 0 or not res or int(res) <= 0:
+                return False            # the parser meets the untrustworthy line first
+            elapsed += Fraction((tick - pt) * 60000, pn * int(res))
+            if elapsed > _TIMEDELTA_MAX_S:
+                return True
+        prev = (tick, n)
+    return False
+
+
 def _max_event_tick(spec) -> int:
     m = 0
     for it in spec["sync"]:
@@ -155,6 +183,17 @@ def check_case(ctx: Ctx, case) -> None:
                          f"{kind} at position {k}: nothing is governed by the zero tempo but the parse "
                          f"raised ValueError", rc)
             ctx.classes["outcome_ValueError"] += 1
+            continue
+        except OverflowError as e:
+            if _beyond_timedelta_range(spec["res"], sync_lines):
+                # moving a tempo line can put a stretch of 10^12 ticks under a very slow tempo: the time of an
+                # IN-ORDER tempo line then exceeds what a timedelta can hold before the parser reaches the
+                # offending line.  That is the representability limit the properties acknowledge (C18: "so
+                # that no time exceeds the platform timedelta range"), not a verdict on trust: not judged.
+                ctx.classes["outcome_beyond_timedelta_range_not_judged"] += 1
+                continue
+            ctx.fail("rejected-with-ValueError", f"{kind} at position {k}: raised {type(e).__name__}: {e} "
+                                                 f"instead of ValueError", rc)
             continue
         except Exception as e:  # noqa: BLE001
             ctx.fail("rejected-with-ValueError", f"{kind} at position {k}: raised {type(e).__name__}: {e} "
